@@ -58,6 +58,8 @@ CONSTANTS
     MailCount,       \* mailbox selector -> number of messages
     Defects,         \* set of site names whose defective step the code is recorded to have
     Bytecode,        \* BOOLEAN: the interpreter writes __pycache__ when it loads a PYG file
+    Buffered,        \* BOOLEAN: GopherRequestHandler.wbufsize > 0 (B1, read from the class): replies go through a
+                     \* write buffer, so a dead connection is only noticed when finish() flushes
     OpsBound         \* bound on environment operations per connection for this tree
 
 VARIABLES
@@ -601,13 +603,13 @@ WriteRaises ==                                  \* the handler's write() raises 
     /\ pc' = "catchP" /\ SetSite("WapSubprocess")
     /\ UNCHANGED <<rq, proto, sel, hname, kind, out, wn, log, mark, esc, ops, fs>>
 
-WriteOk ==
-    /\ pc = "write" /\ todo # <<>> /\ ~Dead /\ Head(todo).c.t # "raise"
-    /\ out' = Append(out, Head(todo).c) /\ todo' = Tail(todo) /\ wn' = wn + 1 /\ ops' = ops + 1
+WriteOk ==                                      \* (with a write buffer even a dead connection accepts the bytes)
+    /\ pc = "write" /\ todo # <<>> /\ (~Dead \/ Buffered) /\ Head(todo).c.t # "raise"
+    /\ out' = (IF Dead THEN out ELSE Append(out, Head(todo).c)) /\ todo' = Tail(todo) /\ wn' = wn + 1 /\ ops' = ops + 1
     /\ UNCHANGED <<rq, pc, proto, sel, hname, kind, exc, log, mark, fds, esc, site, fs>>
 
 WriteFail ==                                    \* write() raises: with-blocks unwind, the class propagates
-    /\ pc = "write" /\ todo # <<>> /\ Dead /\ Head(todo).c.t # "raise"
+    /\ pc = "write" /\ todo # <<>> /\ Dead /\ ~Buffered /\ Head(todo).c.t # "raise"
     /\ wn' = wn + 1 /\ ops' = ops + 1
     /\ exc' = IOExc(rq.fcls)
     /\ mark' = IF mark = -1 THEN Len(log) ELSE mark
@@ -651,10 +653,17 @@ Escape ==                                       \* raised outside every try: lea
     /\ esc' = exc.cls /\ exc' = NoExc /\ pc' = "finish"
     /\ UNCHANGED <<rq, proto, sel, hname, kind, todo, out, wn, log, mark, fds, ops, site, fs>>
 
-Finish ==                                       \* finish(): flush, close; request objects released
+\* finish(): flush, close; request objects released.  As coded wbufsize = 0: every write() reaches the
+\* socket at once and finish() has nothing to lose.  With a write buffer (Buffered) the bytes written to
+\* a dead connection are still pending: StreamRequestHandler.finish() swallows the error of its flush()
+\* but wfile.close() flushes again and raises - OUTSIDE handle(), past both catch levels, never logged.
+LostInBuffer == Buffered /\ rq.fk # 0 /\ wn >= rq.fk
+Finish ==
     /\ pc = "finish"
     /\ pc' = "closed" /\ fds' = fds \ {"gc"} /\ ops' = ops + 1
-    /\ UNCHANGED <<rq, proto, sel, hname, kind, exc, todo, out, wn, log, mark, esc, site, fs>>
+    /\ esc' = IF LostInBuffer /\ esc = "none" THEN rq.fcls ELSE esc
+    /\ mark' = IF LostInBuffer /\ mark = -1 THEN Len(log) ELSE mark
+    /\ UNCHANGED <<rq, proto, sel, hname, kind, exc, todo, out, wn, log, site, fs>>
 
 Step == \/ ReadLine \/ SelectProtocol \/ Parse \/ Lookup \/ Entry \/ WriteOk \/ WriteRaises \/ WriteFail \/ WriteDone
         \/ CatchInProtocol \/ CatchInServer \/ Escape \/ Finish
